@@ -10,7 +10,12 @@ Python type: `_reconfigured` repeats the oracle on estimators whose float hyper-
 (np.float64 is a float subclass and passes validate_params: np.linspace / np.arange grids, an ndarray rho ladder
 handed to SMART, values produced by numpy arithmetic) and on estimators re-configured between two training calls
 by plain attribute assignment (`module.rho = v`, which BaseART.__setattr__ routes into `params`): after every
-later call the parameter tree equals the assigned values, and every later sample is first judged against them."""
+later call the parameter tree equals the assigned values, and every later sample is first judged against them.
+
+`_reentrant` repeats it with a reset function that is re-entrant: consulted for one sample, it calls partial_fit /
+predict on the estimator being trained (bare modules, FusionART, DualVigilanceART, TopoART; nested up to two deep,
+before and after its own vetoes have moved the vigilance).  Each of those calls, outer and nested, must hand back the
+parameter values that were in force when it started."""
 from __future__ import annotations
 
 import copy
@@ -26,7 +31,9 @@ RULE = ("cases = (family, hyper-parameters incl. nested modules, stream with lab
         "actually moved a threshold during the call (reset function vetoed a matching category) or the history has "
         ">= 2 calls; distinct by hash of (family spec, stream, mode, eps, history); the same with the float "
         "hyper-parameters held as numpy scalars and/or re-assigned by attribute assignment between two calls "
-        "(non-trivial when a value was re-assigned and training continued, or a threshold moved during a search)")
+        "(non-trivial when a value was re-assigned and training continued, or a threshold moved during a search); the same "
+        "with a re-entrant reset function that trains / queries the estimator being trained from inside a search "
+        "(non-trivial when it re-entered after its own vetoes had moved a threshold by match tracking)")
 
 
 def prepare(ctx):
@@ -156,6 +163,158 @@ def run(ctx):
         cov.hit(f"reset-history:{mode}")
         cov.traces += 1
     _reconfigured(ctx)
+    _reentrant(ctx)
+
+
+# ---------------------------------------------------------------------------------------------------------------
+# re-entrant reset function: while it is consulted for one sample -- possibly after its own vetoes have already moved
+# the vigilance by match tracking -- it trains / queries the very estimator that is being trained
+
+
+def _reentrant(ctx):
+    """Every training / prediction call is a call of the property, also one made from inside a reset function of
+    another call on the same estimator.  Oracle (implementation alone): (1) the parameter tree after every outer call
+    equals the tree in force when it started; (2) the tree after every nested call equals the tree in force when that
+    nested call started (which may be a match-tracked one: the nested call is then judged against it and must hand it
+    back, the enclosing search continues with it); (3) every sample of an outer batch starts its search with the
+    configured tree, also the sample after one whose reset function re-entered."""
+    cov = ctx.cov
+    R = ctx.scale(330, 5000)
+    nmax = ctx.scale(9, 24)
+    maxdepth = 2
+    classes = specs.ELEM + ["FusionART", "DualVigilanceART", "TopoART"]
+    for i in range(R):
+        r = gen.rng_for(ctx.seed, "C07-reentrant", i)
+        cls = classes[i % len(classes)]
+        mode = MODES[(i // len(classes)) % 5]
+        eps = r.choice([0.0, 2.0 ** -10, 1e-3, 0.125])
+        fam, rows = families.build(r, cls, r.randint(3, nmax), mode=mode, eps=eps)
+        n = len(rows)
+        if fam.fresh is None:
+            cov.hit(f"re-entrant:no-fresh-rows:{cls}")
+            continue
+        na = r.randint(1, 4)
+        anchors = fam.fresh(r, na)          # what the reset function feeds back to the estimator
+        X, A = rows.arrs["X"], anchors.arrs["X"]
+        m = n + 2
+        vt = gen.veto_table(r, n, m)
+        est = fam.make()
+        warm = r.randint(0, n // 2)         # rows trained first without any reset function
+        rp = gen.rng_for(ctx.seed, "C07-reentrant-nested", i)
+
+        def draw_plan(depth, r=r):
+            """what the reset function does during one sample: veto its first `lead` calls (each veto of a matching
+            category moves the vigilance), then -- on call lead+1, if the search gets that far -- re-enter"""
+            lead = r.choice([0, 1, 1, 2, 2, 3]) if depth == 0 else r.choice([0, 1, 1, 2])
+            p = {"lead": lead, "re_at": None}
+            if depth < maxdepth and r.random() < (0.8 if depth == 0 else 0.5):
+                a = r.randrange(na)
+                kind = r.choice(["pfit", "pfit", "pfit", "pfit+reset", "pfit+reset", "predict"])
+                p.update(re_at=lead + 1, kind=kind, anchor_rows=[a, r.randint(a + 1, na)], accept_after=r.random() < 0.6,
+                         mode=mode if r.random() < 0.7 else r.choice(MODES), eps=eps if r.random() < 0.7 else r.choice([0.0, 1e-3]))
+            return p
+        plans = [draw_plan(0) for _ in range(n)]
+        frames = []                          # one entry per step_fit that is running (outermost first)
+        log = []                             # what actually happened, in order (part of the replay)
+        st = {"s": -1, "before": None, "bad": None, "tracked": 0, "reentries": 0, "depth": 0}
+        o_step = est.step_fit
+
+        def step(x, *a, _o=o_step, **kw):
+            d = len(frames)
+            if d == 0:
+                st["s"] += 1
+                fr = dict(plans[st["s"]], sample=st["s"], calls=0)
+                if st["before"] is not None and st["bad"] is None and not eq_snap(st["before"], params_tree(est)):
+                    st["bad"] = ("sample-start", st["s"], params_tree(est), st["before"])
+            else:
+                fr = dict(draw_plan(d, rp), sample=frames[0]["sample"], calls=0)
+            frames.append(fr)
+            try:
+                return _o(x, *a, **kw)
+            finally:
+                frames.pop()
+        object.__setattr__(est, "step_fit", step)
+
+        def reset(x_, w_, c_, params=None, cache=None):
+            if not frames:
+                return True
+            fr = frames[-1]
+            fr["calls"] += 1
+            k, d = fr["calls"], len(frames) - 1
+            ev = {"depth": d, "sample": fr["sample"], "call": k, "category": int(c_)}
+            log.append(ev)
+            if fr["re_at"] == k:
+                cur = params_tree(est)
+                moved = st["before"] is not None and not eq_snap(st["before"], cur)
+                a, b = fr["anchor_rows"]
+                ev["re-enter"] = {"call": fr["kind"], "anchor_rows": [a, b], "mode": fr["mode"], "eps": fr["eps"],
+                                  "threshold_moved_by_match_tracking": moved}
+                if fr["kind"] == "predict":
+                    est.predict(A[a:b])
+                elif fr["kind"] == "pfit":
+                    est.partial_fit(A[a:b])
+                else:
+                    est.partial_fit(A[a:b], match_reset_func=reset, match_tracking=fr["mode"], epsilon=fr["eps"])
+                st["reentries"] += 1
+                st["tracked"] += bool(moved)
+                st["depth"] = max(st["depth"], d + 1)
+                cov.hit(f"re-entrant:{fr['kind']}:depth{d + 1}" + (":threshold-moved" if moved else ""))
+                if moved:
+                    cov.hit(f"re-entrant-while-tracked:{cls}")
+                if st["bad"] is None and not eq_snap(cur, params_tree(est)):
+                    st["bad"] = ("nested:" + fr["kind"], fr["sample"], params_tree(est), cur)
+                ev["returns"] = bool(fr["accept_after"] or not vt[fr["sample"]][int(c_) % m])
+                return ev["returns"]
+            ev["returns"] = not (k <= fr["lead"] or (d == 0 and vt[fr["sample"]][int(c_) % m]))
+            return ev["returns"]
+
+        desc = dict(fam.describe(), rows=rows.tolist(), anchors=anchors.tolist(), veto=vt, warm_up_rows=warm,
+                    plans=plans, history=[], reset_calls=log)
+        failed = False
+        try:
+            if warm:
+                with quiet():
+                    est.partial_fit(X[:warm])
+        except Exception as e:
+            cov.hit(f"re-entrant-warm-up-raised:{cls}:{exc_enum(e)}")
+            continue
+        before = st["before"] = params_tree(est)
+        j = warm
+        ncalls = 0
+        for p in gen.compositions(r, n - warm):
+            op = "fit" if r.random() < 0.15 else "pfit"
+            desc["history"].append({"call": op, "rows_slice": [j, j + p]})
+            try:
+                with quiet():
+                    (est.partial_fit if op == "pfit" else est.fit)(X[j:j + p], match_reset_func=reset, match_tracking=mode, epsilon=eps)
+            except Exception as e:
+                cov.hit(f"re-entrant-train-raised:{cls}:{exc_enum(e)}")
+                del frames[:]
+                break
+            j += p
+            ncalls += 1
+            after = params_tree(est)
+            if not eq_snap(before, after):
+                ctx.issue("violation", f"{cls}.{op}+re-entrant-reset:params-changed",
+                          f"{op} returned with changed hyper-parameters after its reset function re-entered the estimator "
+                          f"(mode {mode}, eps {eps}): in force before the call {before}, after it {after}", desc)
+                failed = True
+            if st["bad"] is not None:
+                where, s_, got, want = st["bad"]
+                if where == "sample-start":
+                    ctx.issue("violation", f"{cls}:sample-after-re-entrant-reset-not-judged-against-configured",
+                              f"sample {s_} started its search with {got}, configured {want} (mode {mode}, eps {eps})", desc)
+                else:
+                    ctx.issue("violation", f"{cls}.{'predict' if where.endswith('predict') else 'partial_fit'}(re-entrant):params-changed",
+                              f"a nested {where[7:]} made by the reset function of sample {s_} returned with {got}, "
+                              f"in force when it started {want} (mode {mode})", desc)
+                failed = True
+            if failed:
+                break
+        if not failed and ncalls:
+            cov.hit(f"re-entrant-history:{mode}:{'re-entered' if st['reentries'] else 'search-never-reached-the-re-entry'}")
+        cov.case(("reentrant", cls, fam.spec, desc["rows"], mode, eps, vt, str(plans), warm), st["tracked"] > 0)
+        cov.traces += 1
 
 
 # ---------------------------------------------------------------------------------------------------------------
